@@ -11,3 +11,5 @@ import c09, c16
 c09.ps_build(); c16.imp_build()
 import c10
 c10.h5_build()
+import c17, mainloop
+c17.loaders_build(); mainloop.main_build()
